@@ -28,6 +28,10 @@ pub async fn declaration(
                             return Ok(None);
                         }
                         if let Some(entry) = doc.table.lookup(&ident.value) {
+                            // early return for default values
+                            if Entry::from(entry).is_default() {
+                                return Ok(None);
+                            }
                             let tokens = &doc.tokens[t.to_range()];
                             return Ok(Some(Location {
                                 uri,
@@ -177,6 +181,10 @@ pub async fn implementation(
                             local_table: Some(&p.local_table),
                         };
                         if let Some(entry) = lookup_table.lookup(&ident.value) {
+                            // early return for default values
+                            if entry.is_default() {
+                                return Ok(None);
+                            }
                             let tokens = &doc.tokens[p.to_range()];
                             if let Entry::Procedure(_) = entry {
                                 return Ok(Some(Location {
